@@ -98,6 +98,8 @@ impl MonotonicTimestampGenerator {
     // then this method will increment the last timestamp.
     fn compute_next(&self, last: i64) -> i64 {
         let current = SystemTime::now().duration_since(UNIX_EPOCH);
+        #[cfg(scylla_verif)]
+        let current = crate::verif::clock::override_now(current);
         if let Ok(cur_time) = current {
             // We have generated a valid timestamp
             let u_cur = cur_time.as_micros() as i64;
@@ -144,15 +146,25 @@ impl Default for MonotonicTimestampGenerator {
 impl TimestampGenerator for MonotonicTimestampGenerator {
     fn next_timestamp(&self) -> i64 {
         loop {
+            #[cfg(scylla_verif)]
+            crate::verif::trace::emit("ts", "TsBegin", &[]);
             let last = self.last.load(Ordering::SeqCst);
+            #[cfg(scylla_verif)]
+            crate::verif::trace::emit("ts", "TsLoad", &[("v", last)]);
             let cur = self.compute_next(last);
+            #[cfg(scylla_verif)]
+            crate::verif::trace::emit("ts", "TsComputed", &[("last", last), ("cur", cur)]);
             if self
                 .last
                 .compare_exchange(last, cur, Ordering::SeqCst, Ordering::SeqCst)
                 .is_ok()
             {
+                #[cfg(scylla_verif)]
+                crate::verif::trace::emit("ts", "TsCas", &[("old", last), ("new", cur), ("ok", 1)]);
                 return cur;
             }
+            #[cfg(scylla_verif)]
+            crate::verif::trace::emit("ts", "TsCas", &[("old", last), ("new", cur), ("ok", 0)]);
         }
     }
 }
